@@ -3,6 +3,7 @@ use super::common::*;
 use crate::engine::sweep;
 use crate::lattice;
 use crate::oracle::dur::*;
+use crate::oracle::civil::days1900;
 use crate::oracle::leap::*;
 use crate::report::{guard, Local, Report};
 use hifitime::leap_seconds::{LatestLeapSeconds, LeapSecond, LeapSecondsFile};
@@ -274,6 +275,21 @@ pub fn make_providers(leap: &LeapTable) -> Providers {
             Err(e) => files.push((format!("style_{style}:REJECTED:{e}"), LeapSecondsFile::default(), leap.clone())),
         }
     }
+    // files that announce leap seconds the built-in table does not have yet (an IERS-format file of the future): the
+    // provider must answer per its own entries, also for timestamps beyond 2^32 s (after 2036-02-07)
+    let mut ext = leap.entries.clone();
+    for (k, y) in [2035i64, 2040, 2100, 3000].iter().enumerate() {
+        ext.push((days1900(*y, 1, 1) * 86_400, 38 + k as i64));
+    }
+    for (name, n) in [("future_29", 29usize), ("future_30", 30), ("future_32", 32)] {
+        let path = format!("{dir}/{name}.list");
+        std::fs::write(&path, render(&ext[..n], 0)).expect("write provider file");
+        let t = LeapTable { entries: ext[..n].to_vec() };
+        match LeapSecondsFile::from_path(&path) {
+            Ok(f) => files.push((name.to_string(), f, t)),
+            Err(e) => files.push((format!("{name}:REJECTED:{e}"), LeapSecondsFile::default(), t)),
+        }
+    }
     Providers { files }
 }
 
@@ -468,7 +484,14 @@ pub fn run(rep: &mut Report) {
     let prov = make_providers(&leap);
     rep.bound("providers", prov.files.len() as u64);
     // provider lattice: whole seconds around entries + sub-second edge
-    let pl: Vec<i128> = lattice::el(TimeScale::TAI, 2, Some((-40, 40))).into_iter().filter(|v| q == false || v.rem_euclid(NS) == 0 || v.rem_euclid(NS) == NS - 1).collect();
+    let mut pl: Vec<i128> = lattice::el(TimeScale::TAI, 2, Some((-40, 40))).into_iter().filter(|v| q == false || v.rem_euclid(NS) == 0 || v.rem_euclid(NS) == NS - 1).collect();
+    for y in [2035i64, 2040, 2100, 3000] {
+        for o in [-41 * NS, -NS, -1, 0, 1, NS, 36 * NS, 45 * NS, 86_400 * NS] {
+            pl.push(days1900(y, 1, 1) as i128 * 86_400 * NS + o);
+        }
+    }
+    pl.sort();
+    pl.dedup();
     let scales_p: Vec<TimeScale> = if q { vec![TimeScale::TAI, TimeScale::UTC, TimeScale::GPST] } else { SCALES.to_vec() };
     let (np, ns, nl) = (prov.files.len() as u64, scales_p.len() as u64, pl.len() as u64);
     rep.bound("provider_space", format!("{np} providers x {ns} scales x {nl} instants"));
